@@ -279,6 +279,7 @@ func (w *jobctlWorld) work() {
 			return pop()
 		}
 		w.decidedAtSync = w.oracleDecided()
+		w.checkNoStaleCopy()
 		podEv0 := len(w.api.Pending["pods"])
 		out := Guard(func() string { w.rc.VerifStep(context.Background()); return "" })
 		w.decidedAtSync = ""
@@ -471,6 +472,62 @@ func (w *jobctlWorld) jumpToDeadline() bool {
 	return true
 }
 
+// checkNoStaleCopy evaluates the envelope E-NoStaleCopyOnCreate of the history theorems
+// (Proofs/JobCtlInvStabInv.lean `noStaleCopyOnCreate`) at the START of a pass, in the same form as
+// the Lean hypothesis: for every creation request that ComputeMissingIndexesForCreation yields for
+// the CACHED Job (started, not deleted, able to create tasks), the task name is either on the
+// server, or in none of {authoritative status.tasks, the pod cache, undelivered pod events}.
+// (The function under test is called here only to enumerate the names a pass may ask for — it
+// tags histories, it does not judge them.)
+func (w *jobctlWorld) checkNoStaleCopy() {
+	cj := w.cachedJob
+	if cj == nil || w.c.curScenario != "" || cj.Spec.Template == nil || cj.Status.StartTime.IsZero() || cj.DeletionTimestamp != nil || cj.Spec.KillTimestamp != nil {
+		return
+	}
+	if _, adm := jobutil.GetAdmissionErrorMessage(cj); adm {
+		return
+	}
+	aj := w.apiJob()
+	if aj == nil {
+		return
+	}
+	var reqs []parallel.IndexCreationRequest
+	func() {
+		defer func() { _ = recover() }()
+		reqs, _ = parallel.ComputeMissingIndexesForCreation(cj, parallel.GenerateIndexes(cj.Spec.Template.Parallelism))
+	}()
+	for _, rq := range reqs {
+		h, err := parallel.HashIndex(rq.ParallelIndex)
+		if err != nil {
+			continue
+		}
+		name := fmt.Sprintf("%s-%s-%d", cj.Name, h, rq.RetryIndex)
+		if w.apiPod(name) != nil {
+			continue
+		}
+		stale := false
+		for _, r := range aj.Status.Tasks {
+			if r.Name == name {
+				stale = true
+			}
+		}
+		if _, cached := w.ctx.Sim().Pods().CacheGet(&corev1.Pod{ObjectMeta: metav1.ObjectMeta{Namespace: "ns", Name: name}}); cached {
+			stale = true
+		}
+		for _, ev := range w.api.Pending["pods"] {
+			if m, err := meta.Accessor(ev.Obj); err == nil && m.GetName() == name {
+				stale = true
+			}
+		}
+		if stale {
+			if !w.staleRecreate {
+				w.c.Count("jc.envelope.stale-copy-at-pass-start")
+			}
+			w.envelopeBroken, w.staleRecreate = true, true
+		}
+	}
+}
+
 // checkEnvelope evaluates E-OrphanVisible for the sync that is about to run: when the cached
 // Job can no longer create tasks (kill timestamp or admission error set), every pod owned by
 // the Job on the server that is not listed in the cached status must be in the pod cache
@@ -578,19 +635,9 @@ func (w *jobctlWorld) monitorCall(c sim.Call) {
 				}
 				return false
 			}
-			// (b) an old copy of a Pod of that name is still around in the pod informer (cache or
-			// an undelivered watch event): a task that was created but never recorded (failed status
-			// write) vanished, and its name is used again (witness W-D of the history proofs)
-			staleCopy := false
-			if _, cached := w.ctx.Sim().Pods().CacheGet(&corev1.Pod{ObjectMeta: metav1.ObjectMeta{Namespace: "ns", Name: name}}); cached {
-				staleCopy = true
-			}
-			for _, ev := range w.api.Pending["pods"] {
-				if m, err := meta.Accessor(ev.Obj); err == nil && m.GetName() == name && ev.Obj != c.Obj {
-					staleCopy = true
-				}
-			}
-			if recorded(j) && !recorded(w.cachedJob) || staleCopy {
+			// (the "old copy still in the pod informer" half of the envelope is evaluated at pass
+			// start by checkNoStaleCopy, in the form of the Lean hypothesis)
+			if recorded(j) && !recorded(w.cachedJob) {
 				if !w.envelopeBroken {
 					w.c.Count("jc.envelope.stale-job-recreates-task")
 				}
@@ -1357,25 +1404,29 @@ func (w *jobctlWorld) kubelet(p *corev1.Pod, action int) {
 
 // settle: deliver everything, fire due timers, work until idle; rounds > 3 also lets the
 // kubelet terminate deleted pods and time pass for retry delays and rate-limited retries.
+func (w *jobctlWorld) drain() {
+	for iter := 0; iter < 30; iter++ {
+		w.flush()
+		progressed := false
+		for n := 0; n < 30; n++ {
+			w.q.Advance()
+			if w.q.Len() == 0 {
+				break
+			}
+			w.work()
+			progressed = true
+		}
+		if !progressed && len(w.api.Pending["jobs"]) == 0 && len(w.api.Pending["pods"]) == 0 {
+			break
+		}
+	}
+}
+
 func (w *jobctlWorld) settle(rounds int) {
 	w.faults = nil
 	w.c.Emit("jc.clearfaults", w.state())
 	for round := 0; round < rounds; round++ {
-		for iter := 0; iter < 30; iter++ {
-			w.flush()
-			progressed := false
-			for n := 0; n < 30; n++ {
-				w.q.Advance()
-				if w.q.Len() == 0 {
-					break
-				}
-				w.work()
-				progressed = true
-			}
-			if !progressed && len(w.api.Pending["jobs"]) == 0 && len(w.api.Pending["pods"]) == 0 {
-				break
-			}
-		}
+		w.drain()
 		if round >= 1 {
 			// periodic resync of the informers (10 min in production)
 			w.ctx.Sim().Jobs().Resync()
@@ -1398,6 +1449,8 @@ func (w *jobctlWorld) settle(rounds int) {
 			w.c.Emit(fmt.Sprintf("jc.adv %d", int64(d)), w.state())
 		}
 	}
+	// what the last resync / clock step made due is processed before the state is judged
+	w.drain()
 	w.c.Count("jc.settle")
 }
 
